@@ -21,6 +21,8 @@
      nbases <h>   nzones <h> <B>   rzone <h> <B> <Z>   ncoords <h> <B> <Z>   rcoord <h> <B> <Z> <name>
      nsols <h> <B> <Z>   rfield <h> <B> <Z> <S> <name>   ndesc <h> <B>   rdesc <h> <B> <D>
      gopath <h> <path>   where   delete <h> <B> <name>   save <h> <id> <adf|hdf5> <follow>
+     tdata <h> <B> <coord|field|pcoord|pfield> <DataType>   write an array of that stored type through the typed writer
+     rtypes <h> <B> <array|coord|field|pcoord|pfield> <name>  read it through every reading entry point with every memory type
      fill <h> <B> <kind> <n>   create n children: zone pzone family desc user (of the base), sol grid discrete integral zuser (of
                                zone 1), field (of solution 1 of zone 1)
      drain <h> <B> <kind>      delete EVERY child of that kind (cg_delete_node by name)
@@ -73,7 +75,9 @@ static void prep(int id, const char *kind, const char *be)
     }
     if (cgio_open_file(p, 'w', ft, &c)) { printf("prepfail open\n"); exit(3); }
     cgio_get_root_id(c, &root);
-    if (!strcmp(kind, "badver")) {
+    if (!strcmp(kind, "ivers")) {            /* the version node holds an integer */
+        cgio_new_node(c, root, "CGNSLibraryVersion", "CGNSLibraryVersion_t", "I4", 1, &dim, iv, &id1);
+    } else if (!strcmp(kind, "badver")) {
         cgio_new_node(c, root, "CGNSLibraryVersion", "CGNSLibraryVersion_t", "R4", 1, &dim, &v, &id1);
     } else if (!strcmp(kind, "twovers")) {
         v = 3.2f;
@@ -176,6 +180,76 @@ int main(int argc, char **argv)
                 if (!ier && !strcmp(nm, a)) { ier = cg_array_read_as(i, t2, buf); break; }
             }
             printf("array %d", ier); tail(0, 0);
+        }
+        else if (sscanf(line, "tdata %d %d %1023s %1023s", &h, &B, a, b) == 4) {
+            /* tdata <h> <B> <coord|field|pcoord|pfield> <DataType name>: write an array of that STORED type through the typed writer:
+               coordinate T_<type> of zone 1, field T_<type> of solution 1 of zone 1, coordinate / field T_<type> of particle zone 1
+               (its solution 1: op psol).  Types the writer refuses give an error (that is a refused call too). */
+            static double buf[8192]; int idx, i, ns = 0; char nm[40];
+            CGNS_ENUMT(DataType_t) dt = CGNS_ENUMV(Integer);
+            for (i = 0; i < NofValidDataTypes; i++) if (!strcmp(DataTypeName[i], b)) dt = (CGNS_ENUMT(DataType_t))i;
+            memset(buf, 0, sizeof buf);
+            sprintf(nm, "T_%s", b);
+            if (!strcmp(a, "coord")) ier = cg_coord_write(fns[h], B, 1, dt, nm, buf, &idx);
+            else if (!strcmp(a, "field")) ier = cg_field_write(fns[h], B, 1, 1, dt, nm, buf, &idx);
+            else if (!strcmp(a, "pcoord")) ier = cg_particle_coord_write(fns[h], B, 1, dt, nm, buf, &idx);
+            else ier = cg_particle_field_write(fns[h], B, 1, 1, dt, nm, buf, &idx);
+            (void)ns;
+            printf("tdata %d", ier); tail(0, 0);
+        }
+        else if (sscanf(line, "psol %d %d %1023s", &h, &B, a) == 3) { int idx; ier = cg_particle_sol_write(fns[h], B, 1, a, &idx); printf("psol %d", ier); tail(0, 0); }
+        else if (sscanf(line, "rtypes %d %d %1023s %1023s", &h, &B, a, b) == 4) {
+            /* rtypes <h> <B> <array|coord|field|pcoord|pfield> <name>: read the named array through EVERY reading entry point of its
+               kind with EVERY memory data type (valid or not for the stored type): the typed reader over the full range, the
+               general reader over the full range, over a part of the file range, and into a part of a larger memory array.
+               The library accepts some pairs and refuses others; none may leave anything behind.  -> "rtypes 0 ok <n> refused <m>" */
+            static double buf[16384]; int nok = 0, nref = 0, A = 0, na = 0, i, m, nd = 1, st = 0;
+            cgsize_t lo[3] = {1, 1, 1}, hi[3] = {1, 1, 1}, plo[3] = {1, 1, 1}, phi[3] = {1, 1, 1}, md[3], mlo[3], mhi[3], bd[3], blo[3], bhi[3], sz[9];
+            char nm[64]; CGNS_ENUMT(DataType_t) t2;
+            if (!strcmp(a, "array")) {
+                st = cg_goto(fns[h], B, "UserDefinedData_t", 1, "end");
+                if (!st) st = cg_narrays(&na);
+                for (i = 1; !st && i <= na; i++) { cgsize_t dv[12]; st = cg_array_info(i, nm, &t2, &nd, dv); if (!st && !strcmp(nm, b)) { A = i; hi[0] = dv[0]; nd = 1; break; } }
+                if (!st && !A) st = 1;
+            } else if (a[0] == 'p') { st = cg_particle_read(fns[h], B, 1, nm, sz); hi[0] = sz[0]; nd = 1; }
+            else { st = cg_zone_read(fns[h], B, 1, nm, sz); hi[0] = sz[0]; hi[1] = sz[1]; hi[2] = sz[2]; nd = 3; }
+            for (i = 0; i < nd; i++) {
+                phi[i] = hi[i] > 1 ? hi[i] - 1 : 1;                        /* part of the file range */
+                md[i] = hi[i]; mlo[i] = 1; mhi[i] = hi[i];                 /* memory = file shape */
+                bd[i] = hi[i] + 2; blo[i] = 2; bhi[i] = hi[i] + 1;         /* a part of a larger memory array */
+            }
+            for (m = 0; !st && m < NofValidDataTypes; m++) {
+                CGNS_ENUMT(DataType_t) mt = (CGNS_ENUMT(DataType_t))m; int e[4] = {0, 0, 0, 0}, q;
+                if (!strcmp(a, "array")) {
+                    e[0] = cg_array_read_as(A, mt, buf);
+                    e[1] = cg_array_general_read(A, lo, hi, mt, nd, md, mlo, mhi, buf);
+                    e[2] = cg_array_general_read(A, plo, phi, mt, nd, md, mlo, phi, buf);
+                    e[3] = cg_array_general_read(A, lo, hi, mt, nd, bd, blo, bhi, buf);
+                } else if (!strcmp(a, "coord")) {
+                    e[0] = cg_coord_read(fns[h], B, 1, b, mt, lo, hi, buf);
+                    e[1] = cg_coord_general_read(fns[h], B, 1, b, lo, hi, mt, nd, md, mlo, mhi, buf);
+                    e[2] = cg_coord_general_read(fns[h], B, 1, b, plo, phi, mt, nd, md, mlo, phi, buf);
+                    e[3] = cg_coord_general_read(fns[h], B, 1, b, lo, hi, mt, nd, bd, blo, bhi, buf);
+                } else if (!strcmp(a, "field")) {
+                    e[0] = cg_field_read(fns[h], B, 1, 1, b, mt, lo, hi, buf);
+                    e[1] = cg_field_general_read(fns[h], B, 1, 1, b, lo, hi, mt, nd, md, mlo, mhi, buf);
+                    e[2] = cg_field_general_read(fns[h], B, 1, 1, b, plo, phi, mt, nd, md, mlo, phi, buf);
+                    e[3] = cg_field_general_read(fns[h], B, 1, 1, b, lo, hi, mt, nd, bd, blo, bhi, buf);
+                } else if (!strcmp(a, "pcoord")) {
+                    e[0] = cg_particle_coord_read(fns[h], B, 1, b, mt, lo, hi, buf);
+                    e[1] = cg_particle_coord_general_read(fns[h], B, 1, b, lo, hi, mt, md, mlo, mhi, buf);
+                    e[2] = cg_particle_coord_general_read(fns[h], B, 1, b, plo, phi, mt, md, mlo, phi, buf);
+                    e[3] = cg_particle_coord_general_read(fns[h], B, 1, b, lo, hi, mt, bd, blo, bhi, buf);
+                } else {
+                    e[0] = cg_particle_field_read(fns[h], B, 1, 1, b, mt, lo, hi, buf);
+                    e[1] = cg_particle_field_general_read(fns[h], B, 1, 1, b, lo, hi, mt, md, mlo, mhi, buf);
+                    e[2] = cg_particle_field_general_read(fns[h], B, 1, 1, b, plo, phi, mt, md, mlo, phi, buf);
+                    e[3] = cg_particle_field_general_read(fns[h], B, 1, 1, b, lo, hi, mt, bd, blo, bhi, buf);
+                }
+                for (q = 0; q < 4; q++) if (e[q]) nref++; else nok++;
+            }
+            ier = st;
+            printf("rtypes %d ok %d refused %d", st, nok, nref); tail(0, 0);
         }
         else if (sscanf(line, "fill %d %d %1023s %d", &h, &B, a, &n) == 4) {
             /* fill <h> <B> <kind> <n>: create n children of that kind (names <K><i>): zone pzone family desc user under the base;
